@@ -17,7 +17,7 @@ for p in props:
         c = claims[pid]
         checks.append(dict(property_id=pid, quick_cmd=f'./check {pid} --tier quick', thorough_cmd=f'./check {pid} --tier thorough',
                            evidence_file=f'/verif/evidence/{pid}.json', replay_cmd_template=f'./check {pid} --replay {{path}}',
-                           engine='lean4-model+harness',
+                           engine={'C01': 'lean4-leakage-model+lackey-trace', 'C11': 'lean4-checked-twins+two-profile-panic-classes'}.get(pid, 'lean4-model+harness'),
                            level_claimed=dict(category=('proof' if c.get('category', 'proof') == 'partial' else c.get('category', 'proof')),
                                               text=(('PARTIAL (the logic part is proved in Lean for all inputs; the compiled-code/runtime part is observed on the real binary, not proved). ' if c.get('category') == 'partial' else '') + c['text']), design_ref=c.get('design_ref', f'§6 {pid}')),
                            level_note=c['note'], technique=c['technique']))
@@ -34,8 +34,12 @@ if os.path.exists(hp):
 m = dict(version=1, setup_cmd='./setup.sh',
          hooks=dict(guard='crypto_bigint_verif', enable='harness/.cargo/config.toml passes --cfg crypto_bigint_verif to rustc for every harness build',
                     baseline_off_cmd='cd /repo && cargo test --workspace --no-fail-fast --offline', source_commits=hooks_commits, add_only=True),
-         engines=[dict(name='lean4-model+harness', path='/verif/tools/runner.py', serves_properties=[c['property_id'] for c in checks],
-                       kind_free_text='Lean 4 theorems about a hand-written limb-level model (lean/CB), tied to the code by a differential correspondence run (Rust harness with path dependency on /repo vs compiled Lean driver)')],
+         engines=[dict(name='lean4-model+harness', path='/verif/tools/runner.py', serves_properties=[c['property_id'] for c in checks if c['property_id'] not in ('C01', 'C11')],
+                       kind_free_text='Lean 4 theorems about a hand-written limb-level model (lean/CB) and about definitions regenerated from the source by tools/translate.py (lean/CB/Gen), tied to the code by a differential correspondence run (Rust harness with path dependency on /repo vs compiled Lean driver)'),
+                  dict(name='lean4-leakage-model+lackey-trace', path='/verif/tools/check_c01.py', serves_properties=['C01'],
+                       kind_free_text='Lean 4 noninterference theorems over a leakage-instrumented model (lean/CB/Model/Leak*.lean), value correspondence of that model through the generic runner, and observation of the opt-level-3 binary under valgrind lackey (instruction-address and data-address traces compared across secret inputs)'),
+                  dict(name='lean4-checked-twins+two-profile-panic-classes', path='/verif/tools/check_c11.py', serves_properties=['C11'],
+                       kind_free_text='Lean 4 theorems about Except-valued checked twins of the model functions + panic-class comparison of the real crate in two build profiles (release, debug assertions + overflow checks) over the operation lines of every property')],
          checks=checks, not_applicable=na,
          notes='Single entry point ./check <id> --tier quick|thorough. See DESIGN.md.')
 json.dump(m, open(os.path.join(VERIF, 'MANIFEST.json'), 'w'), indent=1)
